@@ -32,6 +32,7 @@ def run(ctx):
     behs = U.gen(ctx, "Gen_UdpNatReal.cfg", 110 if q else 700, seed=ctx.seed + 7919)
     trace, sums = U.run_real(ctx, behs, "c04")
     U.validate(ctx, trace, "UdpNatTraceReal.cfg", U.PROPS["C04"], "real sockets, TLC behaviours", behs)
+    U.summary_violations(ctx, sums, behs, "real sockets, TLC behaviours", set())
     ctx.cov["evaluations"] += len(behs)
     ctx.cov["distinct_nontrivial"] += U.count(behs, nontrivial)
     rows = vlib.read_ndjson(trace)
